@@ -39,7 +39,8 @@ def classify(prop, sig):
                 "rename:rename:objects/tmp:objects#0", "rename:rename:refs/tmp:refs/pids#0", "rename:rename:metadata/tmp:metadata#0")) and (
                 "holds 0 bytes" in what or "holds b''" in what or
                 what in ("recovery: pid not retrievable with the right bytes after re-storing",
-                         "metadata document served with bytes that are not a supplied version")):
+                         "metadata document served with bytes that are not a supplied version") or
+                (what.startswith("recovery (") and "pid not retrievable with the right bytes after re-storing" in what)):
             return "C10-F1"
         if cb.startswith("after a one-off EIO at write:write:refs/cids#0") and \
                 what == "a shared reference list gained a line for the interrupted pid without its pid reference":
